@@ -40,7 +40,11 @@ def FS.put (fs : FS) (p c : String) : FS := (p, c) :: fs.filter (·.1 != p)
 structure Env where
   noParent : List String := []   -- paths whose parent directory does not exist
   roParent : List String := []   -- paths whose parent directory is not writeable
-  nonFile  : List String := []   -- paths that exist and are not regular files (directories)
+  /-- paths that exist and are neither regular files nor FIFOs (directories, sockets, devices): `Path(fc)` rejects them.
+      FIFO targets are OUTSIDE the model: since fix 5706b13 an existing FIFO passes `Path(fc)`, `check_overwrite`
+      (`os.path.isfile`) does not refuse it and `open(fifo, "w")` blocks until a reader appears; a FIFO stores no
+      content, so nothing a FIFO "holds" can be destroyed — `FS` is about regular files only. -/
+  nonFile  : List String := []
 
 inductive Err
   | format          -- ValueError  "Unknown output format"
@@ -68,7 +72,8 @@ deriving instance DecidableEq for Except
 
 abbrev Result := Except Err Unit × FS
 
-/-- `Path(p, mode="fc")`: parent directory exists and is writeable, `p` is not an existing non-file -/
+/-- `Path(p, mode="fc")`: parent directory exists and is writeable, `p` is not an existing path other than a
+    regular file (or a FIFO, outside the model) -/
 def pathFc (env : Env) (p : String) : Bool :=
   !env.noParent.contains p && !env.roParent.contains p && !env.nonFile.contains p
 
